@@ -287,7 +287,7 @@ def gen_leaf(rng):
     if r < 0.3:
         return ['int', rng.choice([0, 1, 2, 7, -1, 10, 12, 255, 2**40])]
     if r < 0.45:
-        return ['float', rng.choice([0.5, 1.5, 2.25, -3.0, 1e300, 0.1])]
+        return ['float', rng.choice([0.5, 1.5, 2.25, -3.0, 1e300, 0.1, 0.0, 0.0])]
     if r < 0.6:
         return ['str', rng.choice(['', 'a', 'ab', 'b', 'abc', 'c', 'bc', '1', 'int', 'None'])]
     if r < 0.68:
@@ -416,10 +416,27 @@ def gen_tf(rng):
     return ['tf', 'Matrix', lin, [rng.choice([0., .5]) for _ in lin]]
 
 
+def _negzero_variant(spec):
+    '''`spec` with its first float zero replaced by the negative zero (same type, equal for Python, another value), or None.'''
+    if spec == ['float', 0.0] and str(spec[1]) == '0.0':
+        return ['float', -0.0]
+    if isinstance(spec, list):
+        for i, x in enumerate(spec):
+            if isinstance(x, list):
+                v = _negzero_variant(x)
+                if v is not None:
+                    return spec[:i] + [v] + spec[i + 1:]
+    return None
+
+
 def near_misses(spec, rng):
     '''Values that differ from `spec` in exactly the way a sloppy hash would miss.'''
     t = spec[0]
     out = []
+    if t in ('float', 'tuple', 'list', 'fdict', 'dict', 'P', 'S', 'D', 'V'):
+        nz = _negzero_variant(spec)
+        if nz is not None:
+            out.append(nz)
     if t == 'int':
         out += [['float', float(spec[1])] if abs(spec[1]) < 2**40 else ['int', spec[1] + 1], ['str', str(spec[1])], ['tuple', [spec]]]
         if spec[1] in (0, 1):
@@ -456,10 +473,6 @@ def near_misses(spec, rng):
         out.append([t, ('b' if spec[1][0] == 'a' else 'a') + spec[1][1:]] + spec[2:])
         if t != 'V':
             out.insert(0, [t, spec[1][0] + ('' if spec[1][1:] else '2')] + spec[2:])   # base class <-> subclass, same arguments
-        for i in range(2, len(spec)):
-            if spec[i] == ['float', 0.0]:
-                # same type, other value (1/x differs), but equal for Python: -0.0
-                out.insert(0, spec[:i] + [['float', -0.0]] + spec[i + 1:])
         if t in ('P', 'S') and len(spec) == 3:
             out.append([t, spec[1], spec[2], ['int', 3]])
         other = {'P': 'S', 'S': 'P'}.get(t)
@@ -557,8 +570,10 @@ def gen_case(rng, index, tier):
             ops.append(['gc', rng.choice([0, 1, 2])])
         elif r < 0.82:
             ops.append(['churn', rng.choice([10, 100, 1000]), rng.choice([16, 24, 32, 64])])
-        elif r < 0.9:
+        elif r < 0.88:
             ops.append(['pickle', rng.randrange(16)])
+        elif r < 0.92:
+            ops.append(['compare', rng.randrange(len(pool)), rng.randrange(len(pool)), rng.randrange(8)])
         else:
             ops.append(['cached', rng.randrange(4), rng.choice([1, 2, 3]), rng.randrange(1 << 16)])
     return dict(kind='history', pool=pool, ops=ops)
@@ -737,6 +752,27 @@ def run_history(case):
                 log.append(('pickle', si))
                 probe('pickle_roundtrip')
                 del v, w
+        elif kind == 'compare':
+            # freshly built values compared with == (and used as dictionary keys) BEFORE anybody asked for their hash: looking at values must not change them
+            si, sj = op[1] % len(pool), op[2] % len(pool)
+            if si not in refused and sj not in refused:
+                try:
+                    x, y = build(pool[si], op[3] % nroutes(pool[si])), build(pool[sj], op[3] % nroutes(pool[sj]))
+                    try:
+                        x == y
+                        y == x
+                    except Exception:
+                        pass    # values with array members may refuse a truth value: not the concern of this property
+                    hx, hy = _hash(x), _hash(y)
+                except Exception as e:
+                    return viol('E-build-raised', f'building {pool[si]} / {pool[sj]} raised {type(e).__name__}: {e}'[:300], case, log)
+                if hx != model[si]:
+                    bad = ('H-unstable', f'after comparing a fresh value of {pool[si]} with a fresh value of {pool[sj]} the former hashes to {hx[:12]}, pristine hash {model[si][:12]}')
+                elif hy != model[sj]:
+                    bad = ('H-unstable', f'after comparing a fresh value of {pool[sj]} with a fresh value of {pool[si]} the former hashes to {hy[:12]}, pristine hash {model[sj][:12]}')
+                del x, y
+            log.append(('compare', si, sj))
+            probe('compare_fresh_values')
         elif kind == 'cached':
             from nutils import transform
             r = numpy.random.RandomState(op[3])
@@ -901,7 +937,7 @@ def run_case(case):
             c2 = json.loads(json.dumps(case).replace('-0.0', '0.375'))
             res2 = run_history(c2)
             if res2.get('verdict') == 'pass':
-                res['vclass'] = 'I-python-equal-arguments-share-intern-entry'
+                res['vclass'] = 'I-python-equal-values-conflated'
                 res['detail'] = 'only with arguments that are equal for Python but are different values (0.0 and -0.0): ' + str(res['detail'])
         return res
 
